@@ -4,6 +4,7 @@ mod c15;
 mod c18;
 mod c35;
 mod c40;
+mod c44;
 mod access;
 mod actions;
 mod c20;
@@ -56,6 +57,7 @@ fn main() {
         "C38" => lpcomp::run_c38(&cli),
         "C39" => lpcomp::run_c39(&cli),
         "C40" => c40::run(&cli),
+        "C44" => c44::run(&cli),
         "C36" => tlworld::run_c36(&cli),
         other => {
             eprintln!("unknown property {other}");
